@@ -4,9 +4,19 @@
 import json, os, re, shutil, subprocess, sys, glob
 
 EXTRA = {  # other checks that also see a change
- "C01-m2": ["C02", "C03"], "C03-m2": ["C01"], "C07-m2": ["C15"], "C10-m2": ["C12"], "C12-m1": ["C10"], "C19-m1": ["C04"],
+ "C01-m2": ["C02", "C03"], "C03-m2": ["C01"], "C07-m2": ["C15"], "C14-m8": ["C17"], "C17-m7": ["C06"], "C10-m2": ["C12"], "C12-m1": ["C10"], "C19-m1": ["C04"],
 }
 STRENGTHENED = {
+ "C04-m7": "missed at first: the monitor trusted `Stack == Vec` as its view of the contents; it now cross-checks that view against the contents obtained by popping a clone (equal to exactly them: not to a proper prefix, an extension, or a same-length sequence differing in one place; Vec, slice and array forms)",
+ "C05-m7": "missed at first: genomes always reached the translation through Plushy::new(Vec); they now go through every way of building a Plushy (Vec, iterators without a size hint, iterators whose honest upper bound is astronomically large, FromIterator, chained iterators)",
+ "C06-m8": "missed at first: dynamic lists only ever got weights that fit in 32 bits; C06 now also builds them (flat and nested) from usize weights whose total exceeds usize::MAX: an error or a member, never a panic",
+ "C09-m8": "missed at first, as INCONCLUSIVE: a panic inside the step escaped the monitor and was reported as a harness problem; a panicking serial_next / par_next is now caught and reported as C09/<mode>/panic",
+ "C10-m8": "missed at first by an over-cautious exclusion: empty ranges beyond the end of a genome were exercised but not judged; an empty range that lies outside either genome addresses a position outside it and is now required to be an error like any other out-of-range segment",
+ "C11-m8": "missed at first: genomes had at most 4097 genes; the bit-flip mutators now also get genomes of 2^24+1 and 2^24+3 genes (sizes an f32 cannot hold exactly)",
+ "C12-m7": "missed at first: the 1/length rate was only measured on genomes of up to 1000 genes, where the seeded error is below the resolution; it is now measured (aggregated flip count, one expected flip per mutation) on genomes of 3000, 6000, 11000 and 70000 genes",
+ "C13-m7": "missed at first: large weights only occurred in near-equal pairs; the weight multisets now include large unequal ones (2^30 : 2^31, 2^29 : 2^29 : 2^31, ...)",
+ "C14-m8": "missed at first (C17 reported it): C14's leaf probes only drew 64-bit words; they now draw through next_u32 / next_u64 / fill_bytes in turn, in the real terms and in the reference evaluator alike",
+ "C17-m7": "missed at first (C06 reported it as a wrong error): C17 now also requires a dynamic weighted list with a single erased member to behave like that member where the outcome does not depend on the stream (same element for deterministic selectors, the member's own error in the reported chain)",
  "C04-m6": "missed at first: bulk insertions were always materialised vectors; C04 now also calls push_many with exact-size iterators that only *claim* up to usize::MAX items and must be refused from the claimed length alone",
  "C05-m6": "missed at first, in the worst way: the change makes the translation of larger genomes blow up, and the monitor's process died (allocation failure) before it could report the structural violations it had already seen; C05 now runs as a supervised child under an address-space limit with a CPU-time hang watchdog, and a death or hang while a genome is being translated is reported with the genomes in flight",
  "C07-m5": "missed at first: EcIndividual populations always had two results each; they now mix result vectors of different lengths",
